@@ -6,6 +6,7 @@ import (
 	"encoding/json"
 	"net"
 	"os"
+	"strconv"
 	"strings"
 	"time"
 )
@@ -38,6 +39,42 @@ func init() {
 		for k := 1; k <= 256; k++ {
 			VerifArmFunc(name, k, wait)
 		}
+	}
+}
+
+// NSQ_VERIF_WAIT="point|k|counter|n[,...]": the goroutine that makes the k-th hit of point
+// waits there until counter has been hit at least n times (at most 10 s).  Pins legal
+// schedules of a subprocess daemon (e.g. a persist parked between two topic reads of
+// GetMetadata until two deletions have left their maps).
+func init() {
+	spec := os.Getenv("NSQ_VERIF_WAIT")
+	if spec == "" {
+		return
+	}
+	for _, part := range strings.Split(spec, ",") {
+		// '|' separates the fields because point names contain ':'
+		g := strings.Split(part, "|")
+		if len(g) != 4 {
+			continue
+		}
+		k, err1 := strconv.Atoi(g[1])
+		n, err2 := strconv.Atoi(g[3])
+		if err1 != nil || err2 != nil || k < 1 {
+			continue
+		}
+		counter := g[2]
+		VerifArmFunc(g[0], k, func() {
+			deadline := time.Now().Add(10 * time.Second)
+			for time.Now().Before(deadline) {
+				verifMu.Lock()
+				c := verifHits[counter]
+				verifMu.Unlock()
+				if c >= n {
+					return
+				}
+				time.Sleep(20 * time.Microsecond)
+			}
+		})
 	}
 }
 
